@@ -4,6 +4,7 @@
 
 mod common;
 mod engine;
+mod expr_ir;
 mod kf;
 mod props;
 mod refsweep;
@@ -51,6 +52,9 @@ fn main() {
         "C15" => props::c01::run_c15(&cx),
         "C05" => props::c05::run_c05(&cx),
         "C09" => props::c05::run_c09(&cx),
+        "C07" => props::c07::run_c07(&cx),
+        "C03" => props::c03::run_c03(&cx),
+        "C13" => props::c13::run_c13(&cx),
         other => {
             eprintln!("unknown property {}", other);
             2
@@ -61,7 +65,7 @@ fn main() {
 
 fn replay(case: &frmc_core::json::J) -> i32 {
     match case.str_of("kind").as_str() {
-        "refsweep" | "shadow" | "c05" | "c09" => refsweep::replay(case),
+        "refsweep" | "shadow" | "c05" | "c09" | "c07" | "c13" | "c03" => refsweep::replay(case),
         k => {
             eprintln!("unknown replay kind {:?}", k);
             2
